@@ -20,6 +20,8 @@ cp seed/patch.diff $OUT/; cp seed/notes.md $OUT/ 2>/dev/null; for f in seed/demo
 RES=""
 for C in "$@"; do
   cd /verif && VERIF_REPO=$WT VERIF_EVIDENCE_DIR=/tmp/seed_evidence timeout 2400 ./vcheck $C --tier quick > /tmp/seed_check_${ID}_$C.log 2>&1; RC=$?
+  NV=$(grep -c '^VIOLATION property=' /tmp/seed_check_${ID}_$C.log)
+  [ "$RC" = 1 ] && [ "$NV" = 0 ] && RC="1-without-VIOLATION-line(harness-crash)"
   RES="$RES $C:rc=$RC"
   echo "--- $C rc=$RC"; grep -m3 "counterexample\|VIOLATION\|HARNESS" /tmp/seed_check_${ID}_$C.log | cut -c1-300
 done
